@@ -175,6 +175,12 @@ pub struct BitFieldVec<W: Word = usize, B = Vec<W>> {
 }
 
 fn mask<W: Word>(bit_width: usize) -> W {
+    assert!(
+        bit_width <= W::BITS,
+        "The bit width ({}) is larger than the number of bits of a word ({})",
+        bit_width,
+        W::BITS
+    );
     if bit_width == 0 {
         W::ZERO
     } else {
